@@ -72,10 +72,11 @@ theorem lookupForVptr_of_lookup (cfg : Cfg) (p : Pub) (id : Nat) (sl : VSlot) (h
 
 /-- the arguments passed by reference, and the `virtual_ptr`s made on the spot from a reference (no
     class being the static one), get the v-table pointers of their registered classes -/
-theorem lookups_ok (s' : PState) (inst : Installed) (c : Compiled) (hc : s'.compiled = some c) (hstatic : s'.staticId = 0)
+theorem lookups_ok (s' : PState) (inst : Installed) (c : Compiled) (hc : s'.compiled = some c)
     (ids : List (List Nat))
     (hlook : ∀ (ci : Nat) (l : List Nat) (id : Nat), ids[ci]? = some l → id ∈ l → lookupVptr s'.cfg s'.pub id = .ok (.cur ci))
-    (hkeys : ∀ (ci : Nat) (l : List Nat) (id : Nat), ids[ci]? = some l → id ∈ l → classIdx c.graph.heads (s'.cfg.proj id) = some ci) :
+    (hkeys : ∀ (ci : Nat) (l : List Nat) (id : Nat), ids[ci]? = some l → id ∈ l → classIdx c.graph.heads (s'.cfg.proj id) = some ci)
+    (hnomap : s'.cfg.hash = .checked → ¬ s'.cfg.vptrMap = true) :
     ∀ (args : List (Kind × Nat)) (cs : List Nat) (k : Nat),
       Forall₂ (fun (id ci : Nat) => ∃ l, ids[ci]? = some l ∧ id ∈ l) (virtIds args) cs →
       ∃ vargs, (List.zipIdx args k).mapM (s'.argLookup inst .ref []) = .ok vargs ∧
@@ -89,7 +90,7 @@ theorem lookups_ok (s' : PState) (inst : Installed) (c : Compiled) (hc : s'.comp
     | nonvirt =>
       have h' : Forall₂ (fun (id ci : Nat) => ∃ l, ids[ci]? = some l ∧ id ∈ l) (virtIds rest) cs := by
         simpa [virtIds, Kind.isVirtual] using h
-      obtain ⟨vr, hvr, hptrs⟩ := lookups_ok s' inst c hc hstatic ids hlook hkeys rest cs (k + 1) h'
+      obtain ⟨vr, hvr, hptrs⟩ := lookups_ok s' inst c hc ids hlook hkeys hnomap rest cs (k + 1) h'
       refine ⟨(Kind.nonvirt, 0) :: vr, ?_, ?_⟩
       · simp only [PState.argLookup, hvr, bind, Except.bind, pure, Except.pure]
       · simpa [Walk.virtPtrs, Kind.isVirtual] using hptrs
@@ -99,7 +100,7 @@ theorem lookups_ok (s' : PState) (inst : Installed) (c : Compiled) (hc : s'.comp
       cases h with
       | @cons _ ci _ cs' hhead htail =>
         obtain ⟨l, hl, hid⟩ := hhead
-        obtain ⟨vr, hvr, hptrs⟩ := lookups_ok s' inst c hc hstatic ids hlook hkeys rest cs' (k + 1) htail
+        obtain ⟨vr, hvr, hptrs⟩ := lookups_ok s' inst c hc ids hlook hkeys hnomap rest cs' (k + 1) htail
         refine ⟨(Kind.virt, inst.vptr.get ci) :: vr, ?_, ?_⟩
         · simp only [PState.argLookup, hlook ci l id hl hid, slotVptr, hvr, bind, Except.bind, pure, Except.pure]
         · simp only [Walk.virtPtrs, Kind.isVirtual, List.filter_cons_of_pos, List.map_cons] at hptrs ⊢
@@ -110,19 +111,51 @@ theorem lookups_ok (s' : PState) (inst : Installed) (c : Compiled) (hc : s'.comp
       cases h with
       | @cons _ ci _ cs' hhead htail =>
         obtain ⟨l, hl, hid⟩ := hhead
-        obtain ⟨vr, hvr, hptrs⟩ := lookups_ok s' inst c hc hstatic ids hlook hkeys rest cs' (k + 1) htail
+        obtain ⟨vr, hvr, hptrs⟩ := lookups_ok s' inst c hc ids hlook hkeys hnomap rest cs' (k + 1) htail
         refine ⟨(Kind.vptr, inst.vptr.get ci) :: vr, ?_, ?_⟩
         · have hfv := lookupForVptr_of_lookup _ _ _ _ (hlook ci l id hl hid)
           have hmk : ∃ vp, s'.mkVPtr id = .ok vp ∧ s'.derefVPtr inst vp = .ok (inst.vptr.get ci) := by
             unfold PState.mkVPtr
-            simp only [hstatic, bne_self_eq_false, Bool.and_false, Bool.false_eq_true, if_false, hfv]
-            by_cases hind : s'.cfg.indirect = true
-            · simp only [hind, if_true]
-              refine ⟨_, rfl, ?_⟩
-              simp only [PState.derefVPtr, PState.cellSlot, hc, hkeys ci l id hl hid, slotVptr]
-            · simp only [hind, Bool.false_eq_true, if_false]
-              refine ⟨_, rfl, ?_⟩
-              simp only [PState.derefVPtr, bne_self_eq_false, Bool.false_eq_true, if_false, slotVptr]
+            by_cases hst : (id == s'.staticId && s'.staticId != 0) = true
+            · -- the static class: its own cell, after the registered-class check of checked policies
+              rw [if_pos hst]
+              -- the registered-class check passes
+              have hpass : s'.cfg.hash = .checked → ∃ i, checkedIdx s'.pub.hash s'.pub.control (UInt64.ofNat id) = some i := by
+                intro hck
+                have hl' := hlook ci l id hl hid
+                unfold lookupVptr at hl'
+                have hm : ¬ s'.cfg.vptrMap = true := hnomap hck
+                simp only [hm, Bool.false_eq_true, if_false, hck] at hl'
+                cases hcx : checkedIdx s'.pub.hash s'.pub.control (UInt64.ofNat id) with
+                | some i => exact ⟨i, rfl⟩
+                | none => simp [hcx] at hl'
+              have hcell := hkeys ci l id hl hid
+              by_cases hck : s'.cfg.hash = .checked
+              · obtain ⟨i, hi⟩ := hpass hck
+                simp only [hck, beq_self_eq_true, if_true, hi]
+                by_cases hind : s'.cfg.indirect = true
+                · simp only [hind, if_true]
+                  exact ⟨_, rfl, by simp only [PState.derefVPtr, PState.cellSlot, hc, hcell, slotVptr]⟩
+                · simp only [hind, Bool.false_eq_true, if_false]
+                  exact ⟨_, rfl, by simp only [PState.derefVPtr, bne_self_eq_false, Bool.false_eq_true, if_false,
+                    PState.cellSlot, hc, hcell, slotVptr]⟩
+              · have hck' : (s'.cfg.hash == HashKind.checked) = false := by simpa using hck
+                simp only [hck', Bool.false_eq_true, if_false]
+                by_cases hind : s'.cfg.indirect = true
+                · simp only [hind, if_true]
+                  exact ⟨_, rfl, by simp only [PState.derefVPtr, PState.cellSlot, hc, hcell, slotVptr]⟩
+                · simp only [hind, Bool.false_eq_true, if_false]
+                  exact ⟨_, rfl, by simp only [PState.derefVPtr, bne_self_eq_false, Bool.false_eq_true, if_false,
+                    PState.cellSlot, hc, hcell, slotVptr]⟩
+            · have hst' : (id == s'.staticId && s'.staticId != 0) = false := by simpa using hst
+              simp only [hst', Bool.false_eq_true, if_false, hfv]
+              by_cases hind : s'.cfg.indirect = true
+              · simp only [hind, if_true]
+                refine ⟨_, rfl, ?_⟩
+                simp only [PState.derefVPtr, PState.cellSlot, hc, hkeys ci l id hl hid, slotVptr]
+              · simp only [hind, Bool.false_eq_true, if_false]
+                refine ⟨_, rfl, ?_⟩
+                simp only [PState.derefVPtr, bne_self_eq_false, Bool.false_eq_true, if_false, slotVptr]
           obtain ⟨vp, hvp, hd⟩ := hmk
           simp only [PState.argLookup, List.find?_nil, hvp, hd, hvr, bind, Except.bind, pure, Except.pure]
           rfl
@@ -145,7 +178,7 @@ theorem C01_C02_call_after_update (s s' : PState) (mults rest : List UInt64)
     (c : Compiled) (hc : s'.compiled = some c)
     (key mi : Nat) (m : MethodC) (hfind : (List.zipIdx c.methods).find? (fun e => e.1.key == key) = some (m, mi))
     (args : List (Kind × Nat)) (cs : List Nat)
-    (hstatic : s'.staticId = 0)
+    (hnomap : s.cfg.hash = .checked → ¬ s.cfg.vptrMap = true)
     (hreg : Forall₂ (fun (id ci : Nat) => id ∈ c.graph.ids ci) (virtIds args) cs)
     (hacc : Forall₂ (fun cl v => cl ∈ c.graph.cov.get v) cs m.vp) (hpos : 0 < m.vp.length) :
     ∃ mr o, s.registry.methods[mi]? = some mr ∧
@@ -219,7 +252,7 @@ theorem C01_C02_call_after_update (s s' : PState) (mults rest : List UInt64)
     have hk1 := (hidkey id ci hid).1
     rw [hcfg, hheads]
     exact classIdx_of_get (heads_keys s.cfg.proj s.registry.classes).1 hk1
-  obtain ⟨vargs, hvargs, hptrs⟩ := lookups_ok s' inst c hc hstatic ids hlook hkeys args cs 0 hreg'
+  obtain ⟨vargs, hvargs, hptrs⟩ := lookups_ok s' inst c hc ids hlook hkeys (by rw [hcfg]; exact hnomap) args cs 0 hreg'
   -- the walk
   have hlen : (Walk.virtPtrs vargs).length = m.vp.length := by
     rw [hptrs, List.length_map]; exact forall₂_length hacc
@@ -253,7 +286,7 @@ theorem C02_unresolvable_calls_are_reported (s s' : PState) (mults rest : List U
     (c : Compiled) (hc : s'.compiled = some c)
     (key mi : Nat) (m : MethodC) (hfind : (List.zipIdx c.methods).find? (fun e => e.1.key == key) = some (m, mi))
     (args : List (Kind × Nat)) (cs : List Nat)
-    (hstatic : s'.staticId = 0)
+    (hnomap : s.cfg.hash = .checked → ¬ s.cfg.vptrMap = true)
     (hreg : Forall₂ (fun (id ci : Nat) => id ∈ c.graph.ids ci) (virtIds args) cs)
     (hacc : Forall₂ (fun cl v => cl ∈ c.graph.cov.get v) cs m.vp) (hpos : 0 < m.vp.length)
     (mr : MethodRec) (hmr : s.registry.methods[mi]? = some mr) (o : Outcome) (ho : ∀ d, o ≠ .ran d)
@@ -261,7 +294,7 @@ theorem C02_unresolvable_calls_are_reported (s s' : PState) (mults rest : List U
     s'.callWith key args .ref [] =
       .raised (.resolution (if o = .ambiguous then .amb else .ni) m.vp.length (errorTypes args)) := by
   obtain ⟨mr', o', hmr', hsel', hcall⟩ := C01_C02_call_after_update s s' mults rest hup hwf hword c hc key mi m hfind
-    args cs hstatic hreg hacc hpos
+    args cs hnomap hreg hacc hpos
   rw [hmr] at hmr'; cases hmr'
   have hr : Ranked s.cfg.proj s.registry s.registry.classes.length := by
     have := hwf; unfold WF at this
